@@ -154,6 +154,10 @@ def t3_reexport() -> Iterator[Dict[str, Any]]:
     yield project([mod("pkg", pkg=True), mod("sub", 1, ops=flat(cls("S"))),
                    mod("facade", ops=[frm("pkg", "sub")], all=["sub"]),
                    mod("use", ops=flat(frm("pkg.sub", "S"), cls("T", "S")))], "T3", idiom="module-reexported-by-plain-module")
+    # the imported name is an ALIAS of a member of a class (run = K.run, Inner = K.In): the member stays in its class
+    yield project([mod("pk", pkg=True, ops=[frm("impl", "run", lvl=1), frm("impl", "Inner", lvl=1)], all=["run", "Inner"]),
+                   mod("impl", 1, ops=flat(cls("K", body=flat(fn("run"), cls("In"))), alias("run", "K.run"), alias("Inner", "K.In"))),
+                   mod("use", 1, ops=flat(frm("pk.impl", "K"), cls("T", "K"), cls("V", "K.In")))], "T3", idiom="alias-of-class-member-reexported")
     # origin lists the name in its own __all__: no move
     yield project([mod("p", pkg=True, ops=[frm("_impl", "X", lvl=1)], all=["X"]),
                    mod("_impl", 1, ops=flat(cls("X")), all=["X"]),
